@@ -183,6 +183,21 @@ def ob_machine(is_cross):
             check(eq(list(gotb), [bv] if give_b else []), 'cross build: the build-machine option is separate')
         else:
             check(eq(list(gotb), list(goth)), 'native build: build-machine values are ignored, the build machine is the host')
+        # ... and the same for a SUBPROJECT: sub:opt / sub:build.opt given on the command line (steps 7-8 of the order) are separate options in a cross build
+        store.initialize_from_subproject_call('sub', {}, {}, {}, {})
+        sh = sym_str(1, 'sub_host_value', alphabet='ef'); sb = sym_str(1, 'sub_build_value', alphabet='gh')
+        give_sh = decide(sym_bool('sub_host_given')); give_sb = decide(sym_bool('sub_build_given'))
+        cmd2 = {}
+        if give_sh: cmd2[kh.evolve(subproject='sub')] = [sh]
+        if give_sb: cmd2[kb.evolve(subproject='sub')] = [sb]
+        if cmd2: store.set_from_configure_command(cmd2)
+        gsh = store.get_value_for(kh.evolve(subproject='sub')); gsb = store.get_value_for(kb.evolve(subproject='sub'))
+        exp_sh = [sh] if give_sh else list(goth)
+        check(eq(list(gsh), exp_sh), 'subproject host option: its own command-line value, else the parent\'s')
+        if is_cross:
+            check(eq(list(gsb), [sb] if give_sb else list(gotb)), 'cross build: sub:build.opt is its own option (own value, else the parent\'s build value)')
+        else:
+            check(eq(list(gsb), exp_sh), 'native build: sub:build.opt is sub:opt')
         cover('done')
     return h
 
